@@ -182,6 +182,18 @@ def is_known(v, variant, known):
     return None
 
 
+def counts_for(v, variant, prop):
+    """Does violation `v`, observed in build `variant`, violate property `prop`?  Besides the property the simulator
+    attributed it to, a float write in a compact build whose output does not read back as the written value is
+    C16's own clause ("compact output parses to the same value")."""
+    if v["prop"] == prop:
+        return True
+    if prop == "C16" and "compact" in variant and v["prop"] in ("C02", "C08") and v.get("enc", "").startswith("WFloat ") \
+            and ("denotes" in v["msg"] or "parsed back" in v["msg"]):
+        return True
+    return False
+
+
 def trace_header(mode, variant, seed, focus, prop, extra=""):
     return "# lexsim trace v1 mode=%s variant=%s seed=%d focus=%s prop=%s %s" % (mode, variant, seed, focus, prop, extra)
 
@@ -204,7 +216,7 @@ def fails_same(variant, header, lines, prop, tag, known):
     finally:
         os.unlink(tmp)
     for v in j["violations"]:
-        if v["prop"] == prop and v.get("tag", "") == tag and not is_known(v, variant, known):
+        if counts_for(v, variant, prop) and v.get("tag", "") == tag and not is_known(v, variant, known):
             return v
     return None
 
@@ -353,6 +365,10 @@ def check(prop, tier):
                             stats["known_hits"][kid] = stats["known_hits"].get(kid, 0) + 1
                         elif vi["prop"] == "HARNESS":
                             die("self-check failed: %s" % vi["msg"])
+                        elif counts_for(vi, v, "C16"):
+                            # C16's own clause: "compact output parses to the same value" — an ordinary single-build history
+                            if violation is None:
+                                violation = (v, s, dict(vi, msg="compact build: " + vi["msg"]), res[v].get("trace") or [], res[v]["events"])
                         else:
                             stats["other_props"][vi["prop"]] = stats["other_props"].get(vi["prop"], 0) + 1
                 ref = res[cvars[0]]
@@ -630,7 +646,8 @@ def replay(path):
     build([variant] + ([hdr["against"]] if mode == "cross" else []))
     if mode == "gated":
         j = run_replay_gated(variant, path)
-        bad = [v for v in j["violations"] if (prop is None or v["prop"] == prop) and not is_known(v, variant, known)]
+        bad = [dict(v, prop=prop or v["prop"]) for v in j["violations"]
+               if (prop is None or counts_for(v, variant, prop)) and not is_known(v, variant, known)]
     elif mode == "cross":
         a = run_gated_trace_records(hdr["against"], path)
         b = run_gated_trace_records(variant, path)
